@@ -1,7 +1,8 @@
 # C09: conditional transformation is Bayes' rule and is invertible
 from . import lin, common as C
 PROP = "C09"
-PROPS_FILE = "props/C09.v"
+PROPS_FILE = ["props/C09.v", "props/GI2.v"]
+TRUSTED_EXTRA = ["props/GI2.v (C08 / C09 / C11 as statements about iterated improper Riemann integrals, at Coq's real numbers: stdlib Reals + Coquelicot + base/RField.v) depends on the standard-library axioms ClassicalDedekindReals.sig_not_dec, sig_forall_dec, FunctionalExtensionality.functional_extensionality_dep, Classical_Prop.classic, Epsilon.epsilon_statement; the theorems of props/C09.v (every real field) stay closed under the global context"]
 RULE = ('cases = affine_conditional_transformation for every conditional class x batch layout {(1,1),(1,n),(n,1)} x dimension regime plus seeded random shapes' "; rational parameters (small integers over denominators 1,2,4; SPD = B B' + d I, cond <= 1e3), random constructor "
         "argument combination; non-trivial = more than one scalar dimension/component involved; distinct = SHA1 of the input description")
 EXPLANATION = ('model affine_conditional (Cond.v) at Qc vs implementation (M, b, Sigma, Lambda, ln_det_Sigma of p(x|y)); oracle: post(y).evaluate_ln(x) + independent ln p(y) = independent joint log-density; round trips (transform back with p(y)) compared with the original conditional and prior component by component')
